@@ -814,6 +814,23 @@ func sameTerms(a, b []Term) bool {
 // running
 
 func (u *Unit) fail(msg string) {
+	// a contract clause that no longer fits the code it is written for (renamed or removed
+	// local, field or callee) is a FAILED obligation, not a tool error: the property is no
+	// longer proved for this code
+	if strings.Contains(msg, "unknown identifier") || strings.Contains(msg, "cannot resolve") || strings.Contains(msg, "no field ") || strings.Contains(msg, "needs a local variable") {
+		for _, o := range u.obls {
+			if o.Kind == "contract-mismatch" && o.Goal == msg {
+				return
+			}
+		}
+		var props []string
+		if u.contract != nil {
+			props = u.contract.allProps()
+		}
+		u.obls = append(u.obls, &Obligation{Name: u.name + "/contract-mismatch", Kind: "contract-mismatch", Func: u.name, Props: props,
+			Goal: msg, Verdict: "failed", Result: SolverResult{Verdict: "sat", Solver: "contract evaluation", Output: msg}})
+		return
+	}
 	u.errs = append(u.errs, msg)
 }
 
